@@ -38,6 +38,9 @@ DepfilePath(s) == s.outs[1] \o ".d"
 Prod(g, f) == IF \E i \in Ids(g) : f \in Outs(St(g, i))
               THEN CHOOSE i \in Ids(g) : f \in Outs(St(g, i)) ELSE 0
 AllOuts(g) == UNION {Outs(St(g, i)) : i \in Ids(g)}
+\* what `ninja` builds when no target is named (no default statement in the generated manifests): the outputs nothing consumes
+RootOuts(g) == {o \in UNION {ToS(St(g, i).outs) \cup ToS(St(g, i).iouts) : i \in Ids(g)} :
+                 \A j \in Ids(g) : o \notin ToS(St(g, j).ex) \cup ToS(St(g, j).im) \cup ToS(St(g, j).oo)}
 
 \* What a command reads, in the order the model command reads it.
 ReadList(s) == s.ex \o s.im \o s.ddi \o s.hdrs
